@@ -204,6 +204,32 @@ static void width_family(void)
                 eval_input(b, n, label, kind);
             }
         }
+    /* every length (quick: 0..1100 and a few non-round longer ones; thorough: 0..70000) as a string / bytes / name length in each of the
+     * three prefix widths 1, 2, 4 with exactly that many payload bytes, and with one byte fewer (truncated) */
+    size_t maxlen = vf_g.thorough ? 70000 : 1100;
+    static const size_t more[] = { 4608, 4863, 32767, 32768, 65535, 65536, 65794 };
+    for (size_t li = 0; li <= maxlen + (vf_g.thorough ? 0 : sizeof more / sizeof more[0]); li++) {
+        if (!take()) continue;
+        if (vf_deadline_passed()) return;
+        size_t l = li <= maxlen ? li : more[li - maxlen - 1];
+        for (int w = 0; w < 3; w++)
+            for (int form = 1; form < 4; form++)
+                for (int shrt = 0; shrt < 2; shrt++) {
+                    if ((w == 0 && l > 255) || (w == 1 && l > 65535) || (shrt && l == 0)) continue;
+                    size_t n = 0;
+                    int kind = form == 3 ? VK_OBJ : VK_ARR;
+                    b[n++] = kind == VK_OBJ ? 0x40 : 0x42;
+                    b[n++] = (uint8_t) ((form == 2 ? 0x18 : 0x14) + w);
+                    for (int i = 0; i < (1 << w); i++) b[n++] = (uint8_t) (l >> (8 * i));
+                    memset(b + n, 'x', l - (size_t) shrt); n += l - (size_t) shrt;
+                    if (form == 3) b[n++] = 0x44;
+                    b[n++] = kind == VK_OBJ ? 0x41 : 0x43;
+                    snprintf(label, sizeof label, "length sweep: %zu in %d byte(s) as %s%s", l, 1 << w, form == 1 ? "string length" : form == 2 ? "bytes length" : "name length",
+                             shrt ? ", payload one byte short" : "");
+                    vf_count(CT_WIDTH_CASES, 1);
+                    eval_input(b, n, label, kind);
+                }
+    }
 }
 
 /* two adjacent names sharing a long common prefix, in every order relation: a comparison that truncates its length
